@@ -25,7 +25,8 @@ REPO = os.environ.get("VERIF_REPO", "/repo")
 DROPPED = ["visibility qualifiers (pub, pub(crate), pub(super))",
            "attributes #[inline], #[allow(..)], #[derive(..)], #[repr(packed)], #[must_use]",
            "doc comments and line comments",
-           "debug_assert!(..) and log::*!(..) statements"]
+           "debug_assert!(..) and log::*!(..) statements",
+           "where a unit says msg_rule: message-text expressions (`format!(..)`, `\"literal\".into()`) are replaced by an opaque msg() -> String"]
 
 
 class ExtractError(Exception):
@@ -76,14 +77,57 @@ def match_brace(text, start):
     raise ExtractError("unbalanced braces")
 
 
-def rewrite(txt):
+def rewrite(txt, keep_pub=False):
     txt = re.sub(r"(?m)^\s*///.*\n", "", txt)
     txt = re.sub(r"(?m)^\s*//(?!@).*\n", "", txt)
     txt = re.sub(r"(?m)[ \t]+//(?!@).*$", "", txt)
     txt = re.sub(r"(?m)^\s*#\[(inline(\(always\))?|allow\([^\]]*\)|derive\([^\]]*\)|repr\(packed\)|must_use)\]\s*\n", "", txt)
-    txt = re.sub(r"\bpub(\((crate|super)\))?\s+", "", txt)
+    if not keep_pub:
+        txt = re.sub(r"\bpub(\((crate|super)\))?\s+", "", txt)
     txt = re.sub(r"(?s)\bdebug_assert!\s*\((?:[^()]|\((?:[^()]|\([^()]*\))*\))*\)\s*;", "", txt)
     txt = re.sub(r"(?s)\blog::(trace|debug|info|warn|error)!\s*\((?:[^()]|\((?:[^()]|\([^()]*\))*\))*\)\s*;", "", txt)
+    return txt
+
+
+def _match_paren(text, i):
+    depth = 0
+    in_str = False
+    while i < len(text):
+        c = text[i]
+        if in_str:
+            if c == "\\":
+                i += 2
+                continue
+            if c == '"':
+                in_str = False
+        elif c == '"':
+            in_str = True
+        elif c in "([{":
+            depth += 1
+        elif c in ")]}":
+            depth -= 1
+            if depth == 0:
+                return i + 1
+        i += 1
+    raise ExtractError("unbalanced parens")
+
+
+def msg_rule(txt):
+    """message-text expressions are replaced by the opaque msg(): `format!(..)` and `"literal".into()`"""
+    out = []
+    i = 0
+    while True:
+        m = re.search(r"\bformat!\s*\(", txt[i:])
+        if not m:
+            out.append(txt[i:])
+            break
+        s = i + m.start()
+        e = _match_paren(txt, i + m.end() - 1)
+        out.append(txt[i:s])
+        out.append("msg()")
+        i = e
+    txt = "".join(out)
+    txt = re.sub(r'"(?:[^"\\]|\\.)*"\s*\.into\(\)', "msg()", txt)
     return txt
 
 
@@ -102,7 +146,9 @@ def extract_item(e):
         return rewrite(t[s:end])
     end = match_brace(t, s)
     item = t[s:end]
-    item = rewrite(item)
+    item = rewrite(item, e.get("keep_pub", False))
+    if e.get("msg_rule"):
+        item = msg_rule(item)
     if e.get("kind", "fn") == "fn":
         b = item.index("{")
         # find the body's brace: first '{' after the signature's closing paren / return type.
@@ -128,6 +174,27 @@ def split_sig(item):
         elif c == "{" and depth == 0:
             return item[:i], item[i:]
     raise ExtractError("no body")
+
+
+def fn_spans(path):
+    """[(first_line, last_line, name)] of fn items in a generated unit file (brace matching)"""
+    text = open(path).read()
+    spans = []
+    for m in re.finditer(r"\bfn\s+(\w+)", text):
+        try:
+            end = match_brace(text, m.end())
+        except Exception:
+            continue
+        spans.append((text.count("\n", 0, m.start()) + 1, text.count("\n", 0, end) + 1, m.group(1)))
+    return spans
+
+
+def enclosing_fn(spans, line):
+    best = None
+    for a, b, n in spans:
+        if a <= line <= b and (best is None or a >= best[0]):
+            best = (a, b, n)
+    return best[2] if best else ""
 
 
 def build_unit(u, outdir):
@@ -201,14 +268,17 @@ def run_units(us, log=print):
                 except Exception:
                     pass
                 # diagnostics
+                spans = fn_spans(path)
                 for blk in re.split(r"\n(?=error)", stderr):
                     if blk.startswith("error") and "aborting due to" not in blk:
                         first = blk.splitlines()[0]
                         loc = ""
-                        m = re.search(r"-->\s*(\S+)", blk)
+                        fn = ""
+                        m = re.search(r"-->\s*(\S+?):(\d+):", blk)
                         if m:
-                            loc = os.path.basename(m.group(1))
-                        fails.append({"desc": first + (" in " + ",".join(bad_fns) if bad_fns else ""), "loc": loc, "raw": blk[:1500]})
+                            loc = os.path.basename(m.group(1)) + ":" + m.group(2)
+                            fn = enclosing_fn(spans, int(m.group(2)))
+                        fails.append({"desc": first + (" in fn " + fn if fn else (" in " + ",".join(bad_fns) if bad_fns else "")), "loc": loc, "raw": blk[:1500]})
                 if not fails:
                     fails.append({"desc": "verus reported errors in " + ",".join(bad_fns), "loc": "", "raw": stderr[-1500:]})
                 row["failed_obligations"] = fails
